@@ -42,6 +42,13 @@ impl Amt {
                 let top = 1u128 << e;
                 (top | (z as u128 & (top - 1))).min(E18 - (m % 7) as u128)
             }
+            // the top decade of the envelope, non-round: 1e17 .. 5e17
+            10 => {
+                let mut z = (m as u64).wrapping_mul(0x9E37_79B9_7F4A_7C15) ^ 0xD1B5_4A32_D192_ED03;
+                z = (z ^ (z >> 29)).wrapping_mul(0xBF58_476D_1CE4_E5B9);
+                z ^= z >> 32;
+                100_000_000_000_000_000 + (z as u128 % 400_000_000_000_000_000)
+            }
             _ => 1 + m % 1_000_000,
         };
         v.clamp(1, E18)
@@ -51,7 +58,7 @@ impl Amt {
 pub fn amt_strategy() -> BoxedStrategy<Amt> {
     prop_oneof![
         2 => Just(0u8), 3 => Just(1u8), 4 => Just(2u8), 3 => Just(3u8), 2 => Just(4u8), 1 => Just(5u8),
-        2 => Just(6u8), 1 => Just(7u8), 2 => Just(8u8), 2 => Just(9u8),
+        2 => Just(6u8), 1 => Just(7u8), 2 => Just(8u8), 2 => Just(9u8), 1 => Just(10u8),
     ]
     .prop_flat_map(|class| (Just(class), any::<u32>()))
     .prop_map(|(class, mant)| Amt { class, mant })
@@ -292,7 +299,7 @@ impl Profile {
             prefix_bonds: 1..4,
             len: 8..60,
             only_bsei: false,
-            prefix_slash_pct: 0,
+            prefix_slash_pct: 15,
         }
     }
 }
@@ -448,9 +455,16 @@ pub fn history_strategy(p: &Profile, cfgs: BoxedStrategy<Cfg>) -> BoxedStrategy<
         proptest::collection::vec(op_strategy(p), p.len.clone()),
         (0u32..100, prop_oneof![4 => 0u8..5, 1 => Just(255u8)], prop_oneof![2 => 1u16..=300, 1 => proptest::sample::select(&[10u16, 100, 500][..])]),
     )
-        .prop_map(move |(cfg, mut a, b, (roll, v, permille))| {
+        .prop_map(move |(mut cfg, mut a, b, (roll, v, permille))| {
             if roll < pct {
                 a.push(Op::Slash { v, permille, unbonding: false });
+                // half of the exact all-validator slashes land the bSei rate exactly on the configured threshold
+                if v == 255 && [10u16, 100, 500].contains(&permille) && roll % 2 == 0 {
+                    cfg.threshold = Dec::new(ONE - permille as u128 * (ONE / 1000));
+                    if cfg.fee.atomics() == 0 {
+                        cfg.fee = Dec::new(ONE / 200);
+                    }
+                }
             }
             a.extend(b);
             History { cfg, ops: a }
@@ -564,6 +578,121 @@ pub fn many_batches_scenario_strategy(cfgs: BoxedStrategy<Cfg>) -> BoxedStrategy
             ops.push(Op::Advance { clock: Clock::Long });
             for u in &final_withdrawers {
                 ops.push(Op::Withdraw { u: *u });
+            }
+            History { cfg, ops }
+        })
+        .boxed()
+}
+
+/// Structured generator: a batch from which *nothing arrives*. A lone dust request (1 unit, or a few) forms a batch of
+/// its own; it is worth zero coins at a rate below 1, or its single unbonding entry is slashed down to zero. Around
+/// it: an earlier batch with two claimants of whom only one withdraws at maturity (so the other holds a released,
+/// unpaid claim when the empty batch matures with the hub balance unchanged), and a later ordinary batch.
+pub fn zero_arrival_scenario_strategy(cfgs: BoxedStrategy<Cfg>) -> BoxedStrategy<History> {
+    (
+        cfgs,
+        proptest::collection::vec((0u8..3, any::<bool>(), prop_oneof![2 => small_amt_strategy(), 1 => amt_strategy()]), 2..5),
+        (any::<bool>(), prop_oneof![3 => Just(0u16), 1 => 0u16..64], any::<bool>()),
+        (0u8..4, prop_oneof![2 => Just(500u16), 1 => Just(100u16), 1 => 1u16..=500], prop_oneof![1 => Just(255u8), 1 => 0u8..5]),
+        (frac(), frac(), frac(), prop_oneof![Just(0i8), Just(1i8)]),
+        (0u8..3, 0u8..3, any::<bool>()),
+        proptest::collection::vec(0u8..4, 0..5),
+    )
+        .prop_map(|(cfg, bonds, (dust_st, dust_frac, dust_first), (slash_when, permille, sv), (f0, f1, f2, off), (w1, w2, donate), tail)| {
+            let mut ops = vec![];
+            // both tokens exist, the dust requester holds both
+            ops.push(Op::Bond { u: 2, st: false, amt: Amt { class: 2, mant: 41 } });
+            ops.push(Op::Bond { u: 2, st: true, amt: Amt { class: 2, mant: 17 } });
+            for (u, st, amt) in bonds {
+                ops.push(Op::Bond { u, st, amt });
+            }
+            if slash_when & 1 == 1 {
+                ops.push(Op::Slash { v: sv, permille, unbonding: false });
+            }
+            // batch 1: two claimants
+            ops.push(Op::Unbond { u: 0, st: false, frac: f0 });
+            ops.push(Op::Unbond { u: 1, st: true, frac: f1 });
+            ops.push(Op::Unbond { u: 1, st: false, frac: f2 });
+            ops.push(Op::Unbond { u: 0, st: true, frac: f2 });
+            ops.push(Op::Advance { clock: Clock::Epoch(1) });
+            // closes batch 1; this request is alone in batch 2
+            ops.push(Op::Unbond { u: 2, st: dust_st, frac: dust_frac });
+            ops.push(Op::Advance { clock: Clock::Epoch(1) });
+            // closes batch 2 (the dust batch); this request opens batch 3
+            ops.push(Op::Unbond { u: 2, st: dust_st != dust_first, frac: f1 });
+            if slash_when & 2 == 2 {
+                ops.push(Op::Slash { v: 255, permille: 500, unbonding: true });
+            }
+            ops.push(Op::Advance { clock: Clock::Unbond(off) });
+            ops.push(Op::Withdraw { u: w1 });
+            if donate {
+                ops.push(Op::Donate { to: 0, coin: 0, amt: Amt { class: 1, mant: 3 } });
+            }
+            ops.push(Op::Advance { clock: Clock::Unbond(1) });
+            ops.push(Op::Withdraw { u: w2 });
+            ops.push(Op::Advance { clock: Clock::Epoch(1) });
+            ops.push(Op::Unbond { u: 0, st: false, frac: f0 });
+            ops.push(Op::Advance { clock: Clock::Unbond(1) });
+            for u in &tail {
+                ops.push(Op::Withdraw { u: *u });
+            }
+            ops.push(Op::Advance { clock: Clock::Long });
+            for u in 0u8..3 {
+                ops.push(Op::Withdraw { u });
+            }
+            History { cfg, ops }
+        })
+        .boxed()
+}
+
+/// Structured generator for the peg-recovery paths at the top of the envelope: one account owns the *whole* bSei
+/// supply of a large, non-round pool, the pool is slashed below the threshold, and the account then converts, unbonds
+/// or bonds amounts comparable to (or exactly equal to) the whole pool.
+pub fn peg_scenario_strategy(cfgs: BoxedStrategy<Cfg>) -> BoxedStrategy<History> {
+    let mv = || (0u8..5, prop_oneof![3 => Just(u16::MAX), 1 => Just(u16::MAX - 1), 2 => any::<u16>()], amt_strategy());
+    (
+        cfgs,
+        (any::<u32>(), prop_oneof![6 => Just(10u8), 1 => Just(9u8), 1 => Just(5u8), 1 => Just(3u8)]),
+        proptest::option::weighted(0.5, (any::<u32>(), prop_oneof![Just(10u8), Just(9u8), Just(2u8)])),
+        // one to three slashes, often heavy: the flooring error of the 18-digit rate is worth a base unit only when
+        // claims exceed rate x 1e18, i.e. for large pools at low rates
+        proptest::collection::vec(
+            (prop_oneof![2 => Just(255u8), 1 => 0u8..5], prop_oneof![2 => 1u16..100, 3 => 100u16..=500, 2 => 400u16..=500, 1 => proptest::sample::select(&[1u16, 10, 100, 500][..])]),
+            1..4,
+        ),
+        (any::<bool>(), proptest::option::weighted(0.35, any::<u32>())),
+        // the first move: mostly an exit with the *whole* supply
+        prop_oneof![3 => Just((0u8, u16::MAX)), 1 => Just((2u8, u16::MAX)), 2 => (0u8..5, any::<u16>())],
+        proptest::collection::vec(mv(), 0..3),
+    )
+        .prop_map(|(mut cfg, (m, class), st_side, slashes, (check_first, rebond), first, moves)| {
+            // peg recovery is only interesting with a fee; keep generated fees, replace a zero fee
+            if cfg.fee.atomics() == 0 {
+                cfg.fee = Dec::new(ONE / 20);
+            }
+            let mut ops = vec![Op::Bond { u: 0, st: false, amt: Amt { class, mant: m } }];
+            if let Some((m2, c2)) = st_side {
+                ops.push(Op::Bond { u: 1, st: true, amt: Amt { class: c2, mant: m2 } });
+            }
+            for (sv, permille) in slashes {
+                ops.push(Op::Slash { v: sv, permille, unbonding: false });
+            }
+            if check_first {
+                ops.push(Op::CheckSlashing { u: 3 });
+            }
+            if let Some(m3) = rebond {
+                // the same account tops up at the low rate: many more claims on the same backing scale
+                ops.push(Op::Bond { u: 0, st: false, amt: Amt { class: 10, mant: m3 } });
+            }
+            let mut all = vec![(first.0, first.1, Amt { class: 1, mant: 0 })];
+            all.extend(moves);
+            for (kind, frac, amt) in all {
+                ops.push(match kind {
+                    0 | 1 => Op::Convert { u: 0, st: false, frac },
+                    2 => Op::Unbond { u: 0, st: false, frac },
+                    3 => Op::Convert { u: 1, st: true, frac },
+                    _ => Op::Bond { u: 2, st: false, amt },
+                });
             }
             History { cfg, ops }
         })
@@ -736,6 +865,22 @@ fn tok(st: bool) -> &'static str {
     }
 }
 
+/// envelope E1: a conversion may not push the destination token's supply beyond 1e18
+pub fn convert_cap(w: &World, st: bool, amount: u128) -> u128 {
+    let pool = hub_state(w);
+    let (rs, rd, sup_d) = if st {
+        (pool.stsei_exchange_rate, pool.bsei_exchange_rate, supply(w, BSEI))
+    } else {
+        (pool.bsei_exchange_rate, pool.stsei_exchange_rate, supply(w, STSEI))
+    };
+    let value_room = crate::util::mul_floor(E18.saturating_sub(sup_d), rd);
+    if rs.is_zero() {
+        amount
+    } else {
+        amount.min(crate::util::div_floor(value_room, rs))
+    }
+}
+
 pub fn frac_of(bal: u128, frac: u16) -> u128 {
     if bal == 0 {
         return 0;
@@ -812,7 +957,14 @@ impl Interp {
                 }
                 let pool = hub_state(w);
                 let p = if *st { pool.total_bond_stsei_amount.u128() } else { pool.total_bond_bsei_amount.u128() };
-                let amount = amt.resolve(p.max(1_000_000)).min(room);
+                let mut amount = amt.resolve(p.max(1_000_000)).min(room);
+                // envelope E1 also bounds the token supplies: at a low rate a payment mints payment / rate tokens
+                let (rate, sup) = if *st { (pool.stsei_exchange_rate, supply(w, STSEI)) } else { (pool.bsei_exchange_rate, supply(w, BSEI)) };
+                let mint_room = E18.saturating_sub(sup);
+                amount = amount.min(crate::util::mul_floor(mint_room, rate));
+                if amount == 0 {
+                    return noop("bond: token supply at E1 limit");
+                }
                 vec![ROp::Bond { user: self.user(*u), st: *st, amount }]
             }
             Op::BondBad { u, st, kind } => vec![ROp::BondBad { user: self.user(*u), st: *st, kind: *kind }],
@@ -823,7 +975,14 @@ impl Interp {
                 if b == 0 {
                     return noop("hook: no balance");
                 }
-                vec![ROp::Hook { owner: user.clone(), caller: user, st: *st, amount: frac_of(b, *frac), convert }]
+                let mut amount = frac_of(b, *frac);
+                if convert {
+                    amount = convert_cap(w, *st, amount);
+                    if amount == 0 {
+                        return noop("convert: destination supply at E1 limit");
+                    }
+                }
+                vec![ROp::Hook { owner: user.clone(), caller: user, st: *st, amount, convert }]
             }
             Op::HookFrom { owner, spender, st, frac, convert } => {
                 let owner = self.holder(w, *owner, *st);
@@ -835,7 +994,13 @@ impl Interp {
                 if b == 0 {
                     return noop("hook_from: no balance");
                 }
-                let amount = frac_of(b, *frac);
+                let mut amount = frac_of(b, *frac);
+                if *convert {
+                    amount = convert_cap(w, *st, amount);
+                    if amount == 0 {
+                        return noop("convert: destination supply at E1 limit");
+                    }
+                }
                 vec![
                     ROp::Allow { owner: owner.clone(), spender: spender.clone(), st: *st, amount, exp: "never".into() },
                     ROp::Hook { owner, caller: spender, st: *st, amount, convert: *convert },
